@@ -250,8 +250,21 @@ def run(tier, regenerate=True):
     chk.functions = {kk: {"mir_blocks_executed": v} for kk, v in sorted(blocks.items())}
     rep.close()
     fscheck.collect(chk, op_results, c06_ops.confirm)
+    # ---- database backend, event-log level (DatabaseEventLog over a model of the sqlite tables)
+    from . import c06_db
+    dprog = H.load_program(c06_db.CRATES, regenerate=regenerate)
+    chk.extra["mir_regeneration_s"].update(dprog.timings)
+    dscen = c06_db.scenarios(tier)
+    chk.bounds["database_scenarios"] = {"count": len(dscen), "records_in_this_log_max": 2 if tier == "quick" else 3,
+                                        "records_of_a_co-resident_log": [0, 2] if tier == "quick" else [0, 1, 2],
+                                        "operations": ["load_tree", "apply_records (1 or 2 records)", "rewind (target from the pool or absent)", "clear"],
+                                        "commit_pool": c06_db.POOL, "table": c06_db.TABLE}
+    dres = par.map_entries(lambda sc: c06_db.run_scenario(dprog, sc), dscen)
+    fscheck.collect(chk, dres, db_confirm)
     chk.assumptions = [
-        "file-system backend only, one log per file; sqlite backend, co-resident logs and advisory locks are outside",
+        "file-system backend: one log per file, advisory locks outside.  Database backend: DatabaseEventLog and the event "
+        "entity run from MIR over mirsym/sqlmodel.py (statements as the code builds them, executed on row lists; two logs in "
+        "one table); sqlite itself, the other tables and cross-backend agreement are outside",
         "per-operation part: the file API (sos_vfs = tokio::fs, async_fd_lock) is the vfs model of mirsym/vfs.py; writes are atomic",
         "the file is what the real encoder produces for k <= %d records behind the 4 identity bytes" % max_k,
         "single-poll executor; BinaryReader/BinaryWriter models",
@@ -259,9 +272,57 @@ def run(tier, regenerate=True):
     return chk.finish(rule="one state = one path of encode(k records);iterate forward;iterate backward for one tuple of payload sizes")
 
 
+def db_confirm(case, nat):
+    """the real DatabaseEventLog on an in-memory sqlite database shows the same kind of disagreement"""
+    if nat.get("outcome") != "ok":
+        return False
+    what = case.get("what", "")
+    if "another log" in what:
+        return nat.get("other_untouched") is False
+    if "re-opened" in what:
+        return "Err" in (nat.get("reload") or {})
+    if "tree in memory" in what:
+        return nat.get("tree_matches_table") is False
+    # row-level expectations: the commits the table should hold afterwards, recomputed from the scenario
+    mine = [c for c, _ in case.get("mine", [])]
+    op = case.get("operation", ["?"])[0]
+    refused = "Err" in (nat.get("result") or {})
+    if op in ("replace", "patch"):
+        new = [c for c, _ in case.get("new", [])]
+        ql = case.get("proof_leaves", [])
+        agreed = (ql == new) if op == "replace" else (ql == mine)
+        before = [int(h[:2], 16) for h in nat.get("before", [])]
+        disk = [int(h[:2], 16) for h in nat.get("disk", [])]
+        memory = [int(h[:2], 16) for h in nat.get("memory", [])]
+        if refused:
+            return agreed or disk != before or memory != before or nat.get("other_untouched") is False
+        exp = new if op == "replace" else mine + new
+        return (not agreed) or disk != exp or memory != exp or nat.get("other_untouched") is False
+    if op == "apply":
+        exp = mine + [c for c, _ in case.get("new", [])]
+    elif op == "clear":
+        exp = []
+    else:
+        t = case.get("target")
+        exp = mine[:len(mine) - mine[::-1].index(t)] if t in mine else mine
+        if (t in mine) == refused:
+            return True
+    got = [int(h[:2], 16) for h in nat.get("disk", [])]
+    return nat.get("tree_matches_table") is False or nat.get("other_untouched") is False or got != exp or \
+        (op != "rewind" and refused)
+
+
 def replay(path):
     case = json.load(open(path))
     rep = Replayer("dev")
+    if case.get("op") == "dblog_script":
+        nat = rep.run(case)
+        rep.close()
+        print(json.dumps(nat)[:600])
+        if db_confirm(case, nat):
+            print("VIOLATION property=%s replay=%s" % (PROP, path))
+            return 1
+        return 0
     bad = native_confirm(rep, case)
     rep.close()
     if bad:
